@@ -285,6 +285,7 @@ async fn main(plan: Plan) -> Outcome {
         .collect();
     migrate_at.sort();
     let mut routed_checked = 0u64;
+    let mut unsynced = 0u64;
     let mut spare_known_to_client = false;
     for i in 0..plan.requests {
         if plan.spare_join_at == Some(i) {
@@ -351,6 +352,33 @@ async fn main(plan: Plan) -> Outcome {
         }
         let m = (i as u64 + 1) * 16;
         let key = keys[tape::choose("c15:which_key", keys.len() as u64) as usize];
+        // Routing is judged for requests submitted while the client's published state
+        // already holds, for this token, exactly the tablet the model says it has learnt
+        // (feedback is applied asynchronously by the cluster worker; that it is applied
+        // at all is the business of the lookup oracle at the end).
+        let in_sync = {
+            let token = model::murmur3_token(&key.to_be_bytes());
+            let want: Option<Vec<([u8; 16], u32)>> = {
+                let mut w = world::world();
+                let mut s = w.script.take().unwrap();
+                let sc = s.as_any().downcast_mut::<C15Script>().unwrap();
+                let r = lookup(&sc.known, token).map(|t| t.replicas.iter().map(|(n, sh)| (sc.host_ids[*n], *sh)).collect());
+                w.script = Some(s);
+                r
+            };
+            match want {
+                None => false,
+                Some(want) => {
+                    let got: Vec<([u8; 16], u32)> = session
+                        .get_cluster_state()
+                        .get_token_endpoints("kst", "tt", Token::new(token))
+                        .iter()
+                        .map(|(n, s)| (*n.host_id.as_bytes(), *s))
+                        .collect();
+                    got == want
+                }
+            }
+        };
         let res = session.execute_unpaged(&p, (key, m as i64)).await;
         if let Ok(qr) = res {
             if let Err(e) = client::check_marker_rows(qr, m) {
@@ -388,7 +416,10 @@ async fn main(plan: Plan) -> Outcome {
         let first = first.filter(|(_, _, _, k)| {
             spare_known_to_client || !k.as_ref().map(|t| t.replicas.iter().any(|(n, _)| *n == plan.nodes)).unwrap_or(false)
         });
-        if let Some((node, shard, token, Some(known))) = first {
+        if !in_sync {
+            unsynced += 1;
+        }
+        if let (true, Some((node, shard, token, Some(known)))) = (in_sync, first) {
             routed_checked += 1;
             let hit = known.replicas.iter().find(|(n, _)| *n == node);
             match hit {
@@ -484,6 +515,7 @@ async fn main(plan: Plan) -> Outcome {
     out.nontrivial = payloads > 0;
     out.count("tablet_payloads_sent", payloads);
     out.count("routing_checked", routed_checked);
+    out.count("routing_not_judged_state_not_in_sync", unsynced);
     out.count("lookups_checked", lookups);
     out.sample = json!({
         "nodes": plan.nodes, "shards": plan.shards, "tablets": plan.tablets, "rf": plan.rf, "requests": plan.requests,
